@@ -85,7 +85,9 @@ pub fn run_c11(cx: &mut Cx) {
     let mut calls: Vec<(Suite, u8, usize, NodeId, StepOpts)> = Vec::new();
     for _ in 0..n_calls {
         let s = Suite::from_idx(cx.ch.choose("g_suite", 2));
-        let api_kind = cx.ch.choose("g_api", 7) as u8;
+        // (kinds 8..10: the fresh api_id of kind 7 followed by LF / CR LF / CR -- identifiers that
+        //  differ only in a line terminator are different identifiers)
+        let api_kind = { let k = cx.ch.choose("g_api", 10) as u8; if k >= 7 { k + 1 } else { k } };
         let count = match cx.ch.weighted("g_count", &[6, 3, 1]) { 0 => cx.ch.choose("g_n", 9) as usize, 1 => 9 + cx.ch.choose("g_n2", 30) as usize, _ => 200 + cx.ch.choose("g_n3", 80) as usize };
         let node = if cx.ch.chance("g_at_b", 1, 2) { b } else { a };
         calls.push((s, api_kind, count, node, StepOpts::default()));
@@ -105,7 +107,7 @@ pub fn run_c11(cx: &mut Cx) {
         cx.step(node, "create_generators", opts, move || {
             // kinds 4..6: long custom api_ids that share their first 240 octets
             let long = |tail: &[u8]| { let mut v = vec![0x41u8; 240]; v.extend_from_slice(tail); v };
-            let api: Option<Vec<u8>> = match api_kind { 0 => Some(api::api_id(s, false).to_vec()), 1 => Some(api::api_id(s, true).to_vec()), 2 => Some([b"BLIND_", api::api_id(s, true)].concat()), 3 => None, 4 => Some(long(b"-one")), 5 => Some(long(b"-two")), 7 => Some(fresh), _ => Some(long(b"")) };
+            let api: Option<Vec<u8>> = match api_kind { 0 => Some(api::api_id(s, false).to_vec()), 1 => Some(api::api_id(s, true).to_vec()), 2 => Some([b"BLIND_", api::api_id(s, true)].concat()), 3 => None, 4 => Some(long(b"-one")), 5 => Some(long(b"-two")), 7 => Some(fresh), 8 => Some([fresh.as_slice(), b"\n"].concat()), 9 => Some([fresh.as_slice(), b"\r\n"].concat()), 10 => Some([fresh.as_slice(), b"\r"].concat()), _ => Some(long(b"")) };
             api::generators(s, count, api.as_deref())
         }, move |cx, st| {
             let Ok(g) = st.out else { cx.log("create_generators crashed (C08's business)".into()); return; };
@@ -121,8 +123,9 @@ pub fn run_c11(cx: &mut Cx) {
                 if *p == p1 { cx.violation("C11", "generators/P1".into(), format!("{key}: generator {i} of {count} equals P1")); }
                 if g[..i].contains(p) { cx.violation("C11", "generators/duplicate".into(), format!("{key}: generator {i} of {count} repeats an earlier one")); }
             }
-            if api_kind == 7 {
+            if (7..=10).contains(&api_kind) {
                 if st.preempted > 0 { cx.count("probe.long_request_parked_while_others_ran"); }
+                let fresh2: Vec<u8> = match api_kind { 8 => [fresh2.as_slice(), b"\n"].concat(), 9 => [fresh2.as_slice(), b"\r\n"].concat(), 10 => [fresh2.as_slice(), b"\r"].concat(), _ => fresh2.clone() };
                 let want: Vec<[u8; 48]> = rm::create_generators(s, count, &fresh2).unwrap().iter().map(|p| p.to_affine().to_compressed()).collect();
                 if g != want { cx.violation("C11", "generators/differs-from-model-under-overlap".into(), format!("{key}: create({count}) on the fresh api_id differs from the specification's list (first difference at {:?})", g.iter().zip(&want).position(|(x, y)| x != y))); }
             }
